@@ -43,6 +43,7 @@ class Walker:
         self.file = None; self.line = None
         self.sites = []      # promotion sites: dict(file,line,kind,detail,func)
         self.func = None
+        self.enums = {}      # EnumConstantDecl id -> value
 
     def upd(self, node):
         for key in ('loc',):
@@ -69,6 +70,16 @@ class Walker:
             return
         self.upd(node)
         k = node.get('kind')
+        if k == 'EnumDecl':
+            nxt = 0
+            for c in node.get('inner', []) or []:
+                if c.get('kind') != 'EnumConstantDecl': continue
+                val = None
+                for cc in c.get('inner', []) or []:
+                    v_ = self._const(cc)
+                    if v_ is not None: val = v_
+                if val is None: val = nxt
+                self.enums[c.get('id')] = val; nxt = val + 1
         if k == 'FunctionDecl':
             self.func = node.get('name')
         if k == 'FieldDecl' and node.get('isBitfield') and self.in_repo() and is_plain_char(node.get('type', {})):
@@ -86,8 +97,13 @@ class Walker:
             if is_plain_char(inner.get('type', {})) and canon(node.get('type', {})) not in ('char',):
                 dst = canon(node.get('type', {}))
                 ok = dst in ('unsigned char', 'signed char', 'uint8_t', 'int8_t')
-                self.sites.append(dict(file=self.relfile(), line=self.line, func=self.func, kind='c' if ok else 'f',
-                                       detail='explicit cast of plain char to %s' % dst))
+                if ok:
+                    self.sites.append(dict(file=self.relfile(), line=self.line, func=self.func, kind='c', detail='explicit cast of plain char to %s' % dst))
+                elif dst in ('int', 'unsigned int', 'long', 'unsigned long', 'short', 'unsigned short', 'long long', 'unsigned long long', 'size_t', 'uint16_t', 'uint32_t', 'uint64_t', 'int16_t', 'int32_t', 'int64_t'):
+                    # the promotion the compiler would insert anyway, written out: judged by its consumer like an implicit one
+                    self.classify(node, parents)
+                else:
+                    self.sites.append(dict(file=self.relfile(), line=self.line, func=self.func, kind='f', detail='explicit cast of plain char to %s' % dst))
         for c in node.get('inner', []) or []:
             self.walk(c, parents + [node])
 
@@ -174,6 +190,11 @@ class Walker:
         if m.get('kind') in ('IntegerLiteral', 'CharacterLiteral'):
             try: return int(m.get('value'))
             except Exception: return None
+        if m.get('kind') == 'ConstantExpr' and m.get('value') is not None:
+            try: return int(m.get('value'))
+            except Exception: return None
+        if m.get('kind') == 'DeclRefExpr' and (m.get('referencedDecl') or {}).get('kind') == 'EnumConstantDecl':
+            return self.enums.get((m.get('referencedDecl') or {}).get('id'))
         if m.get('kind') == 'UnaryOperator' and m.get('opcode') == '-':
             c = self._const(m['inner'][0])
             return -c if c is not None else None
